@@ -44,11 +44,12 @@ ASSUMPTIONS = [
     "requested steps = the steps at which the model collected that are multiples of data_collection_period (k >= 1), plus "
     "the last collection; period -1 = the last collection only",
     "models collect 0-3 times at construction and 0-3 times inside every step, changing model-level and agent-level state "
-    "between two collections made at the same model.steps; a row of step s carries the LAST collection made at s (what "
+    "between two collections made at the same model.steps (parameter mc: every agent removed, an agent created, the first "
+    "agent removed, every agent removed at the final step before the model stops); a row of step s carries the LAST collection made at s (what "
     "_agent_records holds); the model class is deterministic",
     "parameter values are ints/None for the parameters BM interprets; strings, dicts and lists are passed through",
 ]
-NAMES = ["n", "stop", "ic", "sc", "ar", "churn", "k", "tag", "obj"]
+NAMES = ["n", "stop", "ic", "sc", "ar", "churn", "k", "tag", "obj", "mc"]
 MKEYS = ["Steps", "Sum", "K", "T"]
 AKEYS = ["sv", "val"]
 E_VALUE = 2
@@ -71,7 +72,7 @@ def _gen_param(rng, name, objects):
         if kind == "str":
             return [name, "str", code(["a", "bc", "sigmoid"])]
         return [name, kind, [code(pool) for _ in range(rng.randint(1, 2))]]
-    dom = {"n": [0, 1, 2, 3], "stop": [-1, 1, 2, 3, 5], "ic": [0, 1, 2, 2, 3], "sc": [0, 1, 1, 2, 2, 3], "ar": [0, 1], "churn": [0, 1], "k": [0, 1, 7]}[name]
+    dom = {"n": [0, 1, 2, 3], "stop": [-1, 1, 2, 3, 5], "ic": [0, 1, 2, 2, 3], "sc": [0, 1, 1, 2, 2, 3], "ar": [0, 1], "churn": [0, 1], "k": [0, 1, 7], "mc": [0, 1, 1, 2, 3, 4, 4]}[name]
     kind = rng.choice(["scalar", "scalar", "list", "list", "tuple", "range", "np0", "np1"])
     if name == "stop" and kind in ("range", "np0", "np1"):
         kind = "list"
@@ -124,6 +125,15 @@ def gen_cases(rng, tier):
     sweep = list(enumerate_cases(tier))
     rng.shuffle(sweep)
     cases += sweep[:120 if tier == "quick" else 0]
+    # agent churn BETWEEN two collects of the same step (all agents removed / created / first removed / all removed at
+    # the final step before the model stops), with agent reporters on
+    for _ in range(40 if tier == "quick" else 400):
+        params = [["ar", "scalar", 1], ["mc", rng.choice(["scalar", "list"]), None], ["n", "scalar", rng.choice([1, 2, 3])],
+                  ["sc", "scalar", rng.choice([2, 2, 3])], ["ic", "scalar", rng.choice([0, 1, 2])],
+                  ["stop", "scalar", rng.choice([-1, 1, 2, 3])], ["churn", "scalar", rng.choice([0, 0, 1])]]
+        params[1][2] = rng.choice([1, 2, 3, 4, 4]) if params[1][1] == "scalar" else rng.sample([0, 1, 2, 3, 4], 2)
+        rng.shuffle(params)
+        cases.append({"objects": [], "ops": [["batch", params, 1, rng.choice([1, 2, 3, 4]), rng.choice([-1, 1, 1, 2]), 1, False]]})
     return cases
 
 
@@ -135,6 +145,13 @@ def enumerate_cases(tier, broken=False):
                 ops = [["batch", [["ic", "scalar", ic], ["sc", "scalar", sc], ["ar", "scalar", ar], ["stop", "scalar", stop],
                                   ["churn", "list", [0, 1]]], 1, max_steps, period, 1] for period in (-1, 1, 2, 3)]
                 yield {"objects": [], "ops": ops}
+    # agent churn between the collects of one step: mc x collects per step x collects at construction x stop
+    for mc, sc, ic in itertools.product([1, 2, 3, 4], [2, 3], [0, 2]):
+        for stop in (-1, 1, 2):
+            ops = [["batch", [["mc", "scalar", mc], ["sc", "scalar", sc], ["ic", "scalar", ic], ["stop", "scalar", stop],
+                              ["n", "list", [1, 2]], ["ar", "list", [1, 0]]], 1, max_steps, period, 1]
+                   for max_steps in (1, 2, 3) for period in (-1, 1)]
+            yield {"objects": [], "ops": ops}
     # designs: all shapes of two parameters
     shapes = [["scalar", 1], ["list", [0, 1]], ["tuple", [2]], ["range", [0, 3, 1]], ["range", [1, 1, 1]], ["list", []], ["list", [1, 1]],
               ["np0", 2], ["np1", [0, 1]], ["np1", []]]
